@@ -157,17 +157,25 @@ class Executor(ResolutionContext):
             parent_value, self.context_value, info
         )
 
+        ended = False
+
+        def on_field_end():
+            # `fail` can run after `complete` when completing the resolved
+            # value raises a ResolverError, the hook must still fire only once.
+            nonlocal ended
+            if not ended:
+                ended = True
+                self.instrumentation.on_field_end(
+                    parent_value, self.context_value, info
+                )
+
         def fail(err):
             self.add_error(err, path, node)
-            self.instrumentation.on_field_end(
-                parent_value, self.context_value, info
-            )
+            on_field_end()
             return None
 
         def complete(res):
-            self.instrumentation.on_field_end(
-                parent_value, self.context_value, info
-            )
+            on_field_end()
             return self.complete_value(
                 field_definition.type, nodes, path, info, res
             )
